@@ -547,15 +547,35 @@ def message(draw, mtypes=(1, 2, 3, 4), body_depth=2, allow_h=False, max_types=3,
 def ref_message_bytes(msg, little=True, field_order=None, extra_fields=(), unix_fds=None, fds=None):
     """Reference encoding of an abstract message."""
     f = {R.FIELD_CODE[k]: v for k, v in msg['fields'].items()}
+    f.update({R.FIELD_CODE[k]: v for k, v in msg.get('foreign', {}).items()})
     if unix_fds is not None:
         f[9] = unix_fds
-    flags = (1 if msg.get('no_reply') else 0) | (2 if msg.get('no_auto') else 0)
+    flags = (1 if msg.get('no_reply') else 0) | (2 if msg.get('no_auto') else 0) | msg.get('flag_bits', 0)
     return R.encode_message(msg['type'], msg['serial'], f, msg['sig'], msg['trees'], little, flags,
                             field_order, extra_fields, fds)
 
 
 def n_header_fields(msg, extra=0):
-    return len(msg['fields']) + (1 if msg['sig'] else 0) + extra
+    return len(msg['fields']) + len(msg.get('foreign', {})) + (1 if msg['sig'] else 0) + extra
+
+
+FOREIGN_FIELDS = ['path', 'interface', 'member', 'error_name', 'reply_serial']
+
+
+@st.composite
+def wire_only_extras(draw, msg):
+    """What a peer may put on the wire that this library's own constructors never write (parse-side only): header
+    fields the specification defines but does not require for this message type (any header may carry 'zero or more
+    of any optional header fields'), and flag bits beyond NO_REPLY_EXPECTED / NO_AUTO_START.  Sets msg['foreign'] and
+    msg['flag_bits'] in place; ref_message_bytes writes them and compare_parsed expects the fields back."""
+    if draw(st.integers(0, 3)) == 0:
+        own = set(MSG_FIELDS[msg['type']][0]) | set(MSG_FIELDS[msg['type']][1])
+        cand = [f for f in FOREIGN_FIELDS if f not in own]
+        names = draw(st.lists(st.sampled_from(cand), min_size=1, max_size=3, unique=True))
+        msg['foreign'] = {n: draw(_field_value(n)) for n in names}
+    if draw(st.integers(0, 2)) == 0:
+        msg['flag_bits'] = draw(st.sampled_from([0x4, 0x8, 0x4, 0xfc, 0x80]))
+    return msg
 
 
 def build_txdbus_message(MSG, msg, oobFDs=None):
@@ -601,7 +621,7 @@ def compare_parsed(m, msg, fields=None, prefix='parse'):
     """Compare a txdbus message object obtained from parseMessage with the abstract message.
     Returns list of (keysuffix, detail)."""
     out = []
-    fields = msg['fields'] if fields is None else fields
+    fields = dict(msg['fields'], **msg.get('foreign', {})) if fields is None else fields
     if m._messageType != msg['type']:
         out.append(('type', 'expected %d got %r' % (msg['type'], m._messageType)))
     for a in PARSED_ATTRS:
